@@ -89,6 +89,10 @@ func genLuaExec(seed uint64, tier, variant string) any {
 	p.Opt.DisableRetry = r.IntN(5) == 0
 	p.Opt.RetryDelaysMs = pick(r, []int{0}, []int{1, 2, 4}, []int{10, 100})
 	p.Opt.KeepAliveMs, p.Opt.WriteTimeoutMs, p.Opt.DialTimeoutMs = 3600_000, 10_000, 2000
+	// MaxFlushDelay: when a pipe switches to its background writer (a second caller, or Close), whether the writer
+	// goroutine finds the queued command at once or goes to sleep first and then delays the flush by 20 fake
+	// microseconds is a race between two free-running goroutines; with a delay the bytes appear only after a tick
+	p.Opt.MaxFlushDelayUs = 0
 	p.Opt.ConnLifetimeMs = 0 // lifetime expiry re-sends commands (known finding under C03): not what this check is about
 	p.Sched = SchedSpec{CutProb: pick(r, 0.0, 0.3), C2SCutProb: pick(r, 0.0, 0.3), MaxSteps: 8000, TickWeight: pick(r, 0.3, 1.0)}
 	x := luaX{}
@@ -138,9 +142,9 @@ func genLuaExec(seed uint64, tier, variant string) any {
 			} else {
 				c.Cmds = []CmdSpec{unit(0)}
 			}
-			if faulty && r.IntN(10) == 0 {
-				c.TimeoutMs = 50 + r.IntN(2000)
-			}
+			// No deadlines: a synchronous pipe arms the connection's read deadline and the context's own timer for the
+			// same instant, and which of the two fires first (a context error, or a network error that is retried and
+			// triggers a cluster refresh) is the Go runtime's choice. Deadlines are not part of this property.
 			calls = append(calls, c)
 		}
 		p.Tasks = append(p.Tasks, calls)
@@ -152,6 +156,13 @@ func genLuaExec(seed uint64, tier, variant string) any {
 		for i, nf := 0, 1+r.IntN(3); i < nf; i++ {
 			f := FaultSpec{Kind: pick(r, "reset", "reset-after-exec", "reset-after-exec", "eof", "eof-mid-reply", "werr", "node-restart"), AtStep: r.IntN(150), NeedInflight: r.IntN(3) != 0, Pick: r.IntN(4), DurMs: pick(r, 100, 1500), Arg: r.IntN(500)}
 			p.Faults = append(p.Faults, f)
+			if f.Kind == "node-restart" {
+				// A restart ends every connection to the node in one step. With several wires per node the callers of
+				// different wires fail together, and whether one of them still finds another wire's dead pipe in its
+				// slot (mux.pipe loads the slot before any yield) or the already reset slot is the Go runtime's choice:
+				// one wire per node in plans that restart a node.
+				p.Opt.Multiplex = -1
+			}
 		}
 	}
 	p.X["lua"] = x
